@@ -231,6 +231,9 @@ func (c17Silent) Infof(string, ...interface{})  {}
 func (c17Silent) Warnf(string, ...interface{})  {}
 func (c17Silent) Errorf(string, ...interface{}) {}
 
+// c17DoReaders: think times of the goroutines that read through Do() (empty event) in the concurrent workload.
+var c17DoReaders = []time.Duration{2 * time.Millisecond, 7 * time.Millisecond, 11 * time.Millisecond}
+
 // c17Chunk is the binlog's MaxChunkSize (the child of the concurrent-writers variant raises it: no rotation there).
 var c17Chunk uint32 = c17ChunkSize
 
@@ -399,7 +402,7 @@ func TestVerifC17Child(t *testing.T) {
 
 	errFail := errors.New("c17: callback fails on purpose")
 	if variant == "conc" {
-		c17ConcurrentWriters(eng, ack, &mu, states, cur, nWrites, errFail)
+		c17ConcurrentWriters(eng, ack, &mu, states, cur, nWrites, errFail, dir, mode == WaitCommit)
 	}
 	for _, op := range c17Workload(nWrites) {
 		if variant == "conc" {
@@ -451,11 +454,83 @@ func TestVerifC17Child(t *testing.T) {
 // binlog commit of an earlier write (writers that only run back to back are all blocked on the same binlog commit in
 // wait-for-commit mode and never arrive during that wait). The sequence number of an event and the model state are
 // fixed inside the callback, which the engine serialises, so binlog order == sequence order.
-func c17ConcurrentWriters(eng *Engine, ack *c17AckLog, mu *sync.Mutex, states map[string]bool, cur map[int64]int64, per int, errFail error) {
+//
+// The alphabet of callers also contains READS THROUGH Do(): c17DoReaders goroutines (think times 2/7/11 ms) call Do
+// with a callback that only queries (kv rows and the stored offset, through the read-write connection, i.e. the open
+// transaction with every write executed so far) and returns an EMPTY event. In wait-for-commit mode such a Do has to
+// wait for every write executed before it (it is queued between the writers in the engine's acknowledgement queue
+// with no offset of its own); in no-wait mode it returns at once. Oracle: the rows a Do-read is handed are exactly
+// the model state of the prefix of writes executed so far (callbacks are serialised); in wait-for-commit mode, when
+// the Do RETURNS, every event of that prefix is in the binlog files (checked twice: stored offset read by the callback
+// <= bytes in the binlog files measured after the return, and - by the parent, after a kill - every event of the
+// observed prefix is in the durable binlog). The writers' acknowledgements are checked as before.
+func c17ConcurrentWriters(eng *Engine, ack *c17AckLog, mu *sync.Mutex, states map[string]bool, cur map[int64]int64, per int, errFail error, dir string, waitMode bool) {
 	think := []time.Duration{5 * time.Millisecond, 13 * time.Millisecond, 23 * time.Millisecond, 31 * time.Millisecond}
 	kinds := []string{"set", "add", "set", "del"}
 	seq := 0
 	var wg sync.WaitGroup
+	writersDone := make(chan struct{})
+	var rwg sync.WaitGroup
+	for ri, rthink := range c17DoReaders {
+		rwg.Add(1)
+		go func(ri int, rthink time.Duration) {
+			defer rwg.Done()
+			time.Sleep(time.Duration(ri+1) * 3 * time.Millisecond)
+			for {
+				select {
+				case <-writersDone:
+					return
+				default:
+				}
+				var rows, want string
+				var off int64 = -1
+				seen, queued := -1, 0
+				err := eng.Do(context.Background(), "c17doread", func(c Conn, cache []byte) ([]byte, error) {
+					r := c.Query("c17sel", "SELECT k, v FROM kv ORDER BY k")
+					var sb strings.Builder
+					for r.Next() {
+						k, _ := r.ColumnInt64(0)
+						v, _ := r.ColumnInt64(1)
+						fmt.Fprintf(&sb, "%d=%d;", k, v)
+					}
+					if r.Error() != nil {
+						return nil, r.Error()
+					}
+					rows = sb.String()
+					r2 := c.Query("c17off", "SELECT offset FROM __binlog_offset")
+					for r2.Next() {
+						off, _ = r2.ColumnInt64(0)
+					}
+					if r2.Error() != nil {
+						return nil, r2.Error()
+					}
+					mu.Lock()
+					seen, want = seq, c17StateKey(cur)
+					mu.Unlock()
+					eng.waitQMx.Lock() // observation only (non-vacuity counter): unacknowledged callers ahead of this read
+					queued = len(eng.waitQ)
+					eng.waitQMx.Unlock()
+					return nil, nil // empty event: a read
+				})
+				onDisk := c17BinlogBytesOnDisk(dir) // measured AFTER the return: the binlog only grows
+				switch {
+				case err != nil:
+					ack.line("doreaderr r%d %q", ri, err.Error())
+				case rows != want:
+					ack.line("BAD doread-state r%d rows=%q after %d writes, model state of that prefix=%q offset=%d", ri, rows, seen, want, off)
+				case waitMode && off > onDisk:
+					ack.line("BAD doread-ahead-of-binlog r%d rows=%q (state after %d writes) offset=%d binlog_bytes=%d callers_ahead=%d", ri, rows, seen, off, onDisk, queued)
+				default:
+					ack.line("doread %d %d %d", seen, off, queued)
+				}
+				time.Sleep(rthink)
+			}
+		}(ri, rthink)
+	}
+	defer func() {
+		close(writersDone)
+		rwg.Wait()
+	}()
 	for g := range think {
 		wg.Add(1)
 		go func(g int) {
@@ -719,6 +794,14 @@ func c17Restart(dir string) (c17DBState, error) {
 // ---------------------------------------------------------------------------------------------------
 // parent: running children
 
+// c17DoRead: a Do() with an empty event that returned; Seen = number of writes executed before its callback (it was
+// handed the rows of exactly that prefix), Off = stored offset it read, Queued = callers waiting ahead of it.
+type c17DoRead struct {
+	Seen   int
+	Off    int64
+	Queued int
+}
+
 type c17Run struct {
 	Variant string // "seq": one writer, the scripted workload; "conc": 4 concurrent writers with think times
 	Class   string // which counter the kill point refers to: "binlog" or "sqlite"
@@ -728,6 +811,7 @@ type c17Run struct {
 	Killed  bool
 	Exit    int
 	Acks    []int // write indexes acknowledged
+	DoReads []c17DoRead // reads through Do() that returned
 	Opened  bool
 	Closed  bool
 	Bad     []string
@@ -1018,6 +1102,11 @@ func (c *c17Cfg) runChild(variant, mode, class string, n int) (*c17Run, error) {
 				}
 			case strings.HasPrefix(line, "BAD "):
 				r.Bad = append(r.Bad, line)
+			case strings.HasPrefix(line, "doread "):
+				var d c17DoRead
+				if _, err := fmt.Sscanf(line, "doread %d %d %d", &d.Seen, &d.Off, &d.Queued); err == nil {
+					r.DoReads = append(r.DoReads, d)
+				}
 			case strings.HasPrefix(line, "view ") || strings.HasPrefix(line, "fail "):
 				if line == "fail false" {
 					r.Bad = append(r.Bad, "BAD failing callback was reported as success")
@@ -1077,6 +1166,8 @@ func (c *c17Cfg) check(r *c17Run, rep *mc.Report) (vs []c17Verdict, stateKey str
 		sig := "reader-observes-unknown-state"
 		if strings.Contains(b, "view-ahead-of-binlog") {
 			sig = "reader-observes-events-not-in-binlog"
+		} else if strings.Contains(b, "doread-ahead-of-binlog") {
+			sig = "waiting-read-observes-events-not-in-binlog"
 		} else if strings.Contains(b, "failing callback") {
 			sig = "failed-callback-acknowledged"
 		}
@@ -1196,6 +1287,21 @@ func (c *c17Cfg) check(r *c17Run, rep *mc.Report) (vs []c17Verdict, stateKey str
 				add("acknowledged-write-lost", fmt.Sprintf("write #%d was acknowledged in wait-for-commit mode but is not in the durable binlog", i), withBl(map[string]any{}))
 			}
 		}
+		// a read through Do() that returned in wait-for-commit mode was handed the rows of the first Seen writes:
+		// all of them must be in the durable binlog ("readers never observe effects of events not yet in the binlog")
+		for _, d := range r.DoReads {
+			missing := -1
+			for s := 0; s < d.Seen; s++ {
+				if !have[s] {
+					missing = s
+					break
+				}
+			}
+			if missing >= 0 {
+				add("waiting-read-observes-events-not-in-binlog", fmt.Sprintf("a read through Do() returned in wait-for-commit mode with the rows of the first %d writes (stored offset %d, %d callers queued ahead of it), but event #%d is not in the durable binlog", d.Seen, d.Off, d.Queued, missing), withBl(map[string]any{}))
+				break
+			}
+		}
 	}
 	return vs, stateKey, nontrivial
 }
@@ -1209,10 +1315,10 @@ func TestVerifC17(t *testing.T) {
 	log.SetOutput(io.Discard)
 	rep := mc.NewReport("C17")
 	writes := mc.Pick(6, 12)
-	rep.Rule = "a case = one real child process running one of the two workloads under the harness's ptrace tracer and killed (SIGKILL at syscall entry) at the N-th write-family syscall on a database or binlog file; every N of the unkilled run, both commit modes; after each kill the 4 clauses are checked on copies of the directory. non-trivial = crash state in which database and binlog disagree before recovery (stored offset behind the binlog end, hot journal, or binlog rotation half done)"
+	rep.Rule = "a case = one real child process running one of the two workloads under the harness's ptrace tracer and killed (SIGKILL at syscall entry) at the N-th write-family syscall on a database or binlog file; every N of the unkilled run, both commit modes; after each kill the 4 clauses are checked on copies of the directory; the callers of the concurrent workload are writers, failing writers, View readers and readers through Do() (empty event). non-trivial = crash state in which database and binlog disagree before recovery (stored offset behind the binlog end, hot journal, or binlog rotation half done)"
 	rep.Bounds["writes"] = writes
 	rep.Bounds["workload"] = fmt.Sprintf("%d binlog-producing writes over 3-5 colliding keys (set/overwrite/delete/non-idempotent add), 1-2 callbacks that fail after executing SQL, View reads from the main goroutine and from a concurrent reader, 1-2 binlog rotations (MaxChunkSize %d), CommitEvery 10ms, WriteCallDelay 6ms", writes, c17ChunkSize)
-	rep.Bounds["workload_conc"] = fmt.Sprintf("concurrent writers: 4 goroutines with think times 5/13/23/31 ms issue %d Do() each over 3 colliding keys (set / non-idempotent add / delete) plus one failing callback and the concurrent reader; CommitEvery 10ms, WriteCallDelay 40ms (the binlog lags the SQL transaction by up to 40 ms, several commit periods), no rotation; sequence numbers and model states are fixed inside the (serialised) callback", mc.Pick(3, 5))
+	rep.Bounds["workload_conc"] = fmt.Sprintf("concurrent writers: 4 goroutines with think times 5/13/23/31 ms issue %d Do() each over 3 colliding keys (set / non-idempotent add / delete) plus one failing callback, the concurrent View reader and %d goroutines that read through Do() (empty event; think times %v) for as long as the writers run; CommitEvery 10ms, WriteCallDelay 40ms (the binlog lags the SQL transaction by up to 40 ms, several commit periods), no rotation; sequence numbers and model states are fixed inside the (serialised) callback", mc.Pick(3, 5), len(c17DoReaders), c17DoReaders)
 	rep.Bounds["modes"] = []string{"WaitCommit", "NoWaitCommit"}
 	rep.Bounds["syscalls"] = c17Syscalls
 	rep.Assume("kill points of OBSERVED thread schedules are enumerated, not all schedules (the engine's goroutines and SQLite's C code run free); the oracle is an invariant of any crash state, so schedule variation changes the visited states, never the verdict on correct code")
@@ -1230,6 +1336,21 @@ func TestVerifC17(t *testing.T) {
 	shard, shards := mc.ShardFromEnv()
 
 	var execs, trans, nontriv atomic.Int64
+	var doReads, doReadsQueued, doReadsWait, doReadsWaitQueued atomic.Int64 // reads through Do() that returned / with callers queued ahead
+	countDoReads := func(r *c17Run) {
+		for _, d := range r.DoReads {
+			doReads.Add(1)
+			if d.Queued > 0 {
+				doReadsQueued.Add(1)
+			}
+			if r.Mode == "wait" {
+				doReadsWait.Add(1)
+				if d.Queued > 0 {
+					doReadsWaitQueued.Add(1)
+				}
+			}
+		}
+	}
 	// findings with the known root cause (crash inside the binlog's rotate) are emitted after all others, so
 	// that they never crowd a different violation out of the driver's short list
 	var lateMu sync.Mutex
@@ -1305,6 +1426,7 @@ func TestVerifC17(t *testing.T) {
 			m := map[string]int{}
 			for k, r := range refs[refKey{variant, mode}] {
 				execs.Add(1)
+				countDoReads(r)
 				vs, _, _ := cfg.check(r, rep)
 				emit(vs)
 				cnt := map[string]int{}
@@ -1390,6 +1512,7 @@ func TestVerifC17(t *testing.T) {
 					sitesMu.Unlock()
 					rep.Outcome(j.variant + " " + j.mode + " kill at " + r.Traced[len(r.Traced)-1])
 				}
+				countDoReads(r)
 				vs, key, nt := cfg.check(r, rep)
 				execs.Add(1) // the restart runs the real engine too
 				emit(vs)
@@ -1432,6 +1555,8 @@ func TestVerifC17(t *testing.T) {
 	rep.Parts["kill_sites"] = map[string]any{"distinct": len(siteList), "list": siteList}
 	rep.Parts["violations_by_signature"] = sigCount
 	rep.Parts["tracer"] = map[string]any{"ptrace_stops": cfg.stops.Load(), "child_wall_s_total": float64(cfg.childNs.Load()) / 1e9}
+	rep.Parts["do_reads"] = map[string]any{"returned": doReads.Load(), "returned_with_callers_queued_ahead": doReadsQueued.Load(),
+		"returned_in_wait_mode": doReadsWait.Load(), "returned_in_wait_mode_after_waiting_behind_unacknowledged_callers": doReadsWaitQueued.Load()}
 	rep.Parts["runs"] = map[string]any{"kill_points_tried": len(jobs), "not_killed_because_run_was_shorter": survived.Load(), "child_timeouts": timeouts.Load(), "crash_states_with_db_and_binlog_disagreeing": nontriv.Load()}
 	execs.Add(cfg.rebuilds.Load()) // fresh rebuilds run the real engine too
 	rep.AddCounts(execs.Load(), trans.Load(), 0, 0)
